@@ -37,6 +37,8 @@ struct Setup {
     groups: Vec<OpGroup>,
     /// ring index -> (group, index within group)
     place: Vec<(usize, usize)>,
+    /// the input process data the devices of each group hold (ground truth of the simulator)
+    group_inputs: Vec<Vec<u8>>,
 }
 
 fn setup(case: &Value, seed: u64) -> Result<Setup, Obj> {
@@ -106,14 +108,16 @@ fn setup(case: &Value, seed: u64) -> Result<Setup, Obj> {
     }
     let n = layouts.len();
     let place = (0..n).map(|i| (i % ngroups, i / ngroups)).collect();
-    // Static, seeded input process data
+    // Static, seeded input process data; what every group's inputs must therefore read (devices in group order)
+    let mut group_inputs: Vec<Vec<u8>> = vec![Vec::new(); ngroups];
     for (d, l) in layouts.iter().enumerate() {
         for (_, start, len) in &l.in_sms {
             let data = rng.bytes(usize::from(*len));
             env.seg.device_mut(d).mem_write(*start, &data);
+            group_inputs[d % ngroups].extend_from_slice(&data);
         }
     }
-    Ok(Setup { env, groups, place })
+    Ok(Setup { env, groups, place, group_inputs })
 }
 
 type Results = Rc<RefCell<Vec<Vec<Value>>>>;
@@ -303,7 +307,7 @@ fn run_once(case: &Value, seed: u64, together: bool) -> Result<Obj, Obj> {
     let frames0 = s.env.seg.frames_processed();
     let mut out = Obj::new();
 
-    let Setup { env, groups, place } = &mut s;
+    let Setup { env, groups, place, group_inputs } = &mut s;
     let mut completed = vec![false; specs.len()];
     let mut agg = simrun::MultiStats::default();
     let mut overall = "ok".to_string();
@@ -370,6 +374,10 @@ fn run_once(case: &Value, seed: u64, together: bool) -> Result<Obj, Obj> {
     }
     out.insert("result".into(), json!(overall));
     out.insert("tasks".into(), tasks_json(specs, &results, &completed));
+    out.insert(
+        "group_inputs".into(),
+        Value::Array(group_inputs.iter().map(|g| bytes(g)).collect()),
+    );
     out.insert("max_in_flight".into(), json!(agg.max_in_flight));
     out.insert("frames".into(), json!(env.seg.frames_processed() - frames0));
     out.insert("overtakes".into(), json!(agg.overtakes));
